@@ -98,7 +98,7 @@ def handleDocsHtml (rs : List String) : String :=
     match htmlPages src (rs.map (·.1)) with
     | none => "panic"
     | some site =>
-      let pages := (sortBytesKeys (site.pages.map fun (d, rows) => (UPath.join d, rows))).map fun (d, rows) =>
+      let pages := (sortBytesKeys (site.pageFiles.map fun (d, rows) => (UPath.join d, rows))).map fun (d, rows) =>
         "P" ++ toHex d ++ "[" ++ showInts' rows ++ "]"
       let idx := (sortBytesKeys (site.indexFiles.map fun (loc, c) => (UPath.join loc, c))).map fun (loc, (k, names)) =>
         "X" ++ toHex loc ++ "=" ++ (if k.isNone then "G" else "I") ++ "[" ++
